@@ -318,11 +318,19 @@ def fired_c10(run, trace):
     mutated = set()
     dumped = {}
     loaded = set()
+    if (run.get("cfg") or {}).get("names"):
+        bump("unusual_table_names")
+    if trace.get("own"):
+        bump("customised_table_reexecuted_without_the_others")
     for i, (nid, ev) in enumerate(run["events"]):
         o = trace["outcomes"][i]
         err = isinstance(o, list) and o[:1] == ["E"]
         k = ev[0]
         before = prev.get(nid)
+        if k == "readback" and not err and expected_readback(run, trace["outcomes"], i, nid, ev) is not None:
+            bump("readback_of_customisation")
+        if k == "formula_reuse" and not err and ev[3].startswith("own_") and (ev[4] or "public") != ev[1]:
+            bump("caller_edits_own_formula")
         if k == "init" and ev[1] != "public":
             key = (nid, ev[1], ev[2])
             if err:
